@@ -171,10 +171,11 @@ def build_methods(atoms):
     return methods, users, names
 
 
-def make_spec(kind, stack):
+def make_spec(kind, stack, variant='plain'):
     ex = STACKS[stack]()
     if kind.startswith('openapi'):
-        return openapi.OpenAPI(info=openapi.Info(title='t', version='1'), openapi='3.1.0' if kind.endswith('3.1') else '3.0.3',
+        smap = {-32601: 404, -32602: 422, -32600: 400} if 'statusmap' in variant else {}
+        return openapi.OpenAPI(info=openapi.Info(title='t', version='1'), openapi='3.1.0' if kind.endswith('3.1') else '3.0.3', error_http_status_map=smap,
                                schema_extractors=ex, security_schemes={'basic': openapi.SecurityScheme(type=openapi.SecuritySchemeType.HTTP, scheme='basic')})
     if len(ex) > 1:
         return None      # OpenRPC takes a single extractor
@@ -263,6 +264,20 @@ def gen_cases(ctx):
                         if k == 3 and not (stack in ('pydantic', 'pydantic+docstring') and prefix == ''):
                             continue
                         yield dict(set='core', atoms=idx, stack=stack, kind=kind, prefix=prefix)
+    # OpenAPI configuration variants: errors mapped to their own http status, a document-wide component prefix
+    for stack in ('pydantic', 'docstring+pydantic', 'docstring'):
+        for kind in ('openapi-3.1', 'openapi-3.0'):
+            for variant in ('statusmap', 'gprefix', 'statusmap+gprefix'):
+                for k in (1, 2):
+                    for idx in itertools.permutations(core, k):
+                        if k == 2 and stack == 'docstring':
+                            continue
+                        yield dict(set='core', atoms=idx, stack=stack, kind=kind, prefix='', variant=variant)
+    # several endpoints in one document (OpenAPI): the first method on the root endpoint, the others under /sub
+    for stack in ('pydantic', 'docstring+pydantic'):
+        for kind in ('openapi-3.1', 'openapi-3.0'):
+            for idx in itertools.permutations(core, 2):
+                yield dict(set='core', atoms=idx, stack=stack, kind=kind, prefix='multi')
     full = list(range(len(FULL)))
     for stack in ('pydantic+docstring', 'docstring'):
         for kind in KINDS:
@@ -276,6 +291,8 @@ def run_case(case, rec):
     atoms = [table[i] for i in case['atoms']]
     kind, stack, prefix = case['kind'], case['stack'], case['prefix']
     path = '/api'
+    variant = case.get('variant', 'plain')
+    gkw = dict(component_name_prefix='Glob') if 'gprefix' in variant else {}
     if make_spec(kind, stack) is None:
         return 'n/a'
 
@@ -283,13 +300,23 @@ def run_case(case, rec):
         rec.violation('C16:%s:%s' % (kind, sig), dict(case, atoms_desc=atoms, **extra), expected=expected, observed=observed)
 
     methods, users, names = build_methods(atoms)
+    if prefix == 'multi':
+        prefixes = [''] + ['/sub'] * (len(methods) - 1)
+    else:
+        prefixes = [prefix] * len(methods)
+
+    def mmap(ms, pfs):
+        out = {}
+        for m, pf in zip(ms, pfs):
+            out.setdefault(pf, []).append(m)
+        return out
     before = snapshot(methods, users)
     docs = []
-    spec = make_spec(kind, stack)
+    spec = make_spec(kind, stack, variant)
     gens = 3 if len(atoms) == 1 else 2
     try:
         for g in range(gens):
-            docs.append(spec.schema(path=path, methods_map={prefix: methods}))
+            docs.append(spec.schema(path=path, methods_map=mmap(methods, prefixes), **gkw))
             rec.transitions += 1
     except Exception as e:   # noqa
         viol('generation raised %s (%s extractor)' % (type(e).__name__, stack), 'a document', '%s: %s' % (type(e).__name__, str(e)[:200]))
@@ -306,8 +333,8 @@ def run_case(case, rec):
     if dangling:
         viol('dangling $ref', 'every $ref resolves inside the document', dangling[:5])
     # complete: every method exactly once under name (and path)
-    for n in names:
-        e, count = entry_of(doc, kind, path, prefix, n)
+    for n, pf in zip(names, prefixes):
+        e, count = entry_of(doc, kind, path, pf, n)
         if count != 1:
             viol('method documented %d times' % count, 'exactly once', n)
     extra_entries = (len(doc.get('paths', {})) if kind.startswith('openapi') else len(doc.get('methods', []))) - len(names)
@@ -328,13 +355,13 @@ def run_case(case, rec):
             m_alone, u_alone, n_alone = build_methods(atoms[:i] + [atom])     # same position -> same generated name
             solo_methods = [m_alone[i]]
             try:
-                solo_doc = json.loads(json.dumps(make_spec(kind, stack).schema(path=path, methods_map={prefix: solo_methods}),
+                solo_doc = json.loads(json.dumps(make_spec(kind, stack, variant).schema(path=path, methods_map={prefixes[i]: solo_methods}, **gkw),
                                                  sort_keys=True, cls=specs_mod.JSONEncoder))
                 rec.transitions += 1
             except Exception:   # noqa
                 continue      # reported by the singleton case
-            e_set, c1 = entry_of(doc, kind, path, prefix, names[i])
-            e_solo, c2 = entry_of(solo_doc, kind, path, prefix, names[i])
+            e_set, c1 = entry_of(doc, kind, path, prefixes[i], names[i])
+            e_solo, c2 = entry_of(solo_doc, kind, path, prefixes[i], names[i])
             if e_set is not None and e_solo is not None and json.dumps(e_set, sort_keys=True) != json.dumps(e_solo, sort_keys=True):
                 ent_diff = json.dumps(e_set['entry'], sort_keys=True) != json.dumps(e_solo['entry'], sort_keys=True)
                 viol('entry of a method depends on the other methods (%s)' % ('entry' if ent_diff else 'reachable components'),
@@ -400,7 +427,7 @@ def run(ctx):
     ctx.rule = ('E1+E2: ordered method sets of 1..%d atoms from a %d-atom core (signatures over scalars / Optional / List / Dict / model '
                 '/ enum / unannotated, annotation bundles errors / shared errors list / tags+summary / examples / component prefix / '
                 'servers+security+deprecated / explicit schemas, docstrings with params / raises / deprecation) x 5 extractor stacks x '
-                '{OpenAPI 3.1, OpenAPI 3.0, OpenRPC} x endpoint prefix {"", "/sub"}%s; 2-3 consecutive generations each; every '
+                '{OpenAPI 3.1, OpenAPI 3.0, OpenRPC} x endpoint prefix {"", "/sub", both in one document}, OpenAPI variants {errors mapped to http statuses, document-wide component prefix}%s; 2-3 consecutive generations each; every '
                 'document checked for JSON-encodability, closed $refs, completeness, purity, non-interference (differential against '
                 'the method documented alone) and validated against the official meta-schema in a second stage. state = one '
                 '(method set, configuration) point; non-trivial = sets of 2+ methods'
@@ -416,7 +443,7 @@ def replay(doc):
     from mc.core import Ctx, Recorder, jdump
     rec = Recorder()
     c = doc['case']
-    case = {k: c[k] for k in ('set', 'atoms', 'stack', 'kind', 'prefix')}
+    case = {k: c[k] for k in ('set', 'atoms', 'stack', 'kind', 'prefix', 'variant') if k in c}
     run_case(case, rec)
     ctx = Ctx('C16', 'quick', 0, 1)
     ctx.rec = rec
